@@ -34,7 +34,15 @@ SCHEMA = '''
   scalar type tiny extending small;
   type User { required name: str; age: int64; score: float64; s: small;
               lvl: int16; multi friends: User; }
+  # object types: mixins, a link declared on two unrelated types
+  abstract type Tagged { tag: str; }
+  type P { owner: User; }
+  type C extending P, Tagged;
+  type S1 extending Tagged { owner: User; }
+  type S2 extending S1 { multi owners: User; }
 '''
+SUBTYPES = {}
+_CUR = {}
 INT = {'std::int16', 'std::int32', 'std::int64'}
 FLOAT = {'std::float32', 'std::float64'}
 
@@ -72,7 +80,38 @@ def winit():
         T.mk_db([{"id": B(1), "__type__": "User", "name": "a",
                   "friends": []}], {}),
         T.mk_db([], {}),
+        T.mk_db([{"id": B(1), "__type__": "User", "name": "a", "age": 3,
+                  "friends": [L(2)]},
+                 {"id": B(2), "__type__": "User", "name": "b",
+                  "friends": []},
+                 {"id": B(11), "__type__": "P", "owner": [L(1)]},
+                 {"id": B(12), "__type__": "C", "owner": [L(1)],
+                  "tag": "c"},
+                 {"id": B(13), "__type__": "S1", "owner": [L(1)],
+                  "tag": "s1"},
+                 {"id": B(14), "__type__": "S2", "owner": [L(2)],
+                  "tag": "s2", "owners": [L(1), L(2)]},
+                 {"id": B(15), "__type__": "C", "owner": [L(2)]}], {}),
     ]
+    for t in schema.get_objects(type=s_objtypes.ObjectType,
+                                exclude_stdlib=True):
+        n = t.get_name(schema)
+        if n.module == 'default':
+            SUBTYPES[n.name] = {n.name} | {
+                d.get_name(schema).name for d in t.descendants(schema)}
+
+    def eval_objref(name, ctx):
+        if name == 'FreeObject':
+            return [T.mk_free_object()]
+        names = SUBTYPES.get(name, {name})
+        return [T.Obj(obj["id"]) for obj in ctx.db.data.values()
+                if obj["__type__"] in names]
+
+    def eval_intersect(base, ptr, ctx):
+        typ = ctx.db.data[base.id]["__type__"]
+        return [base] if typ in SUBTYPES.get(ptr.typ, {ptr.typ}) else []
+    T.eval_objref = eval_objref
+    T.eval_intersect = eval_intersect
     _W.update(S=S, T=T, schema=schema, dbs=dbs, s_types=s_types,
               s_objtypes=s_objtypes, s_scalars=s_scalars)
 
@@ -82,6 +121,22 @@ def base_of(t, sch):
     names = [n] + [str(a.get_name(sch))
                    for a in t.get_ancestors(sch).objects(sch)]
     return names
+
+
+def admits(t, tname, sch):
+    """Is an object whose concrete type is default::<tname> a member of
+    the (possibly view / union / intersection) object type t?"""
+    sch, t = t.material_type(sch)
+    un = t.get_union_of(sch)
+    if un:
+        return any(admits(c, tname, sch) for c in un.objects(sch))
+    it = t.get_intersection_of(sch)
+    if it:
+        return all(admits(c, tname, sch) for c in it.objects(sch))
+    n = t.get_name(sch)
+    if n.module == 'std':
+        return True             # Object / BaseObject
+    return tname in SUBTYPES.get(n.name, {n.name})
 
 
 def inhabits(v, t, sch):
@@ -104,7 +159,12 @@ def inhabits(v, t, sch):
         return all(inhabits(x, t.get_element_type(sch), sch) is not False
                    for x in v)
     if isinstance(t, so.ObjectType):
-        return isinstance(v, T.Obj)
+        if not isinstance(v, T.Obj):
+            return False
+        row = _CUR['db'].data.get(v.id)
+        if row is None:
+            return None         # free object / not a stored object
+        return admits(t, row['__type__'], sch)
     if not isinstance(t, ss.ScalarType):
         return None
     names = base_of(t, sch)
@@ -180,6 +240,34 @@ def queries(quick):
                f'select ({a}) limit 1', f'for x in {a} union x',
                f'with w := {a} select w', f'select assert_single(({a}) limit 1)'
                if False else f'select [{a}]']
+    # object types: links declared on unrelated types, mixins, backlinks
+    # with and without intersections, set operations over object types
+    OT = ['P', 'C', 'S1', 'S2', 'Tagged']
+    objs = ['User.<owner', 'User.<owners', 'User.friends.<owner',
+            '(select User.<owner)', 'P', 'C', 'S1', 'S2', 'Tagged',
+            '{P, S1}', '(P union S1)', '(C union S2)', '(S1 ?? P)',
+            '(P if true else Tagged)', '(Tagged except S2)',
+            '(P intersect Tagged)', 'Object']
+    for o in objs:
+        qs += [f'select {o}', f'select ({o}) limit 1',
+               f'select (select {o} filter true)', f'for x in {o} union x',
+               f'with w := {o} select w', f'select array_agg({o})',
+               f'select ({o}, 1)', f'select User {{ e := {o} }}']
+        for t in OT:
+            qs += [f'select {o}[is {t}]', f'select ({o}[is {t}], 1)',
+                   f'select [{o}[is {t}]]',
+                   f'select User {{ e := {o}[is {t}] }}',
+                   f'select {o}[is {t}] union S1',
+                   f'select {{ {o}[is {t}], C }}']
+            for t2 in OT:
+                if t2 != t:
+                    qs += [f'select {o}[is {t}][is {t2}]']
+    qs += ['select P.owner', 'select C.owner', 'select Tagged[is S1].owner',
+           'select (P union S1).owner', 'select {C, S1}[is Tagged].tag',
+           'select Tagged { [is S1].owner }', 'select S2.owners',
+           'select (S1.owner, P.owner)', 'select P.owner.<owner[is Tagged]',
+           'select User.<owner[is Tagged].tag',
+           'select User.<owner[is P].owner']
     qs += ['select User', 'select User.friends', 'select User { name, age }',
            'select (User, User.age)', 'select [User.age]',
            'select User.friends.age + 1', 'select count(User) + 1.5',
@@ -229,6 +317,7 @@ def work(qs):
             continue
         judged = False
         for db in _W['dbs']:
+            _CUR['db'] = db
             try:
                 r = T.toplevel_query(qa, db)
             except Exception:
